@@ -311,10 +311,11 @@ func init() {
 	register(&Prop{
 		ID: "C17", Gen: genC17, Exec: execC17,
 		Nontrivial: func(p Plan, r Result) bool { return p.Mode != "" || nontrivialSeq(p, r) },
-		Rule:      "55% of the runs: sequential command sequences (all commands incl. multi-key gets and gat, 1-3 colliding keys, TTL 0 or 1-5 s, clock steps with the boundary second skipped) on the real inmem singleton (unique key prefix per run) compared with the reference map. 40%: 2-32 tasks with 1-3 commands each on 1-2 keys; the singleton's RWMutex is sim-owned, every Lock/RLock parks and the kernel grants them; oracle = porcupine linearizability per key plus lock discipline from the lock log (a mutating command must hold the write lock). 5%: auxiliary real-parallel stage outside the technique family (runtime monitoring): 2-32 real goroutines mix reads of missing keys with sets and deletes on the real mutex; the Go runtime's concurrent map access detector terminates the process if the map is written under the read lock, which the driver reports as a crash in repository code. Non-trivial = a key written earlier is addressed again / any concurrent mode; distinct = distinct plan hash",
-		Real:      []string{"handlers/inmem (singleton map + RWMutex)"},
-		Stub:      []string{"clock (testing/synctest)", "sync.RWMutex of the singleton (sim-owned in interleave mode, real in the parallel stage)", "caller tasks"},
-		Assume:    []string{"the parallel stage relies on the Go runtime's built-in concurrent map access detection, which is probabilistic; it is auxiliary evidence"},
-		RunsQuick: 4000, RunsThorough: 100000,
+		Rule:       "55% of the runs: sequential command sequences (all commands incl. multi-key gets and gat, 1-3 colliding keys, TTL 0 or 1-5 s, clock steps with the boundary second skipped) on the real inmem singleton (unique key prefix per run) compared with the reference map. 40%: 2-32 tasks with 1-3 commands each on 1-2 keys; the singleton's RWMutex is sim-owned, every Lock/RLock parks and the kernel grants them; oracle = porcupine linearizability per key plus lock discipline from the lock log (a mutating command must hold the write lock). 5%: auxiliary real-parallel stage outside the technique family (runtime monitoring): 2-32 real goroutines mix reads of missing keys with sets and deletes on the real mutex; the Go runtime's concurrent map access detector terminates the process if the map is written under the read lock, which the driver reports as a crash in repository code. Non-trivial = a key written earlier is addressed again / any concurrent mode; distinct = distinct plan hash",
+		Real:       []string{"handlers/inmem (singleton map + RWMutex)"},
+		Stub:       []string{"clock (testing/synctest)", "sync.RWMutex of the singleton (sim-owned in interleave mode, real in the parallel stage)", "caller tasks"},
+		Assume:     []string{"the parallel stage relies on the Go runtime's built-in concurrent map access detection, which is probabilistic; it is auxiliary evidence"},
+		RaceTest:   "TestRaceInmem",
+		RunsQuick:  4000, RunsThorough: 100000,
 	})
 }
